@@ -341,6 +341,17 @@ loop§:
 			`for fmt.Println("for-init"); false; {
 	}`,
 		}, min: 2},
+	{kind: "other-pkg-print", weight: 4, imports: []string{"fmt", "log", "os"},
+		pre: "log.SetFlags(0)\n\tlog.SetOutput(os.Stdout)\n\tdefer log.SetOutput(os.Stderr)\n",
+		lines: []string{
+			`log.Printf("n %d", §)`,
+			`log.Print("a", 1, "b")`,
+			`log.Println("ln", §)`,
+			`fmt.Println(log.Prefix() == "")`,
+			`lg := log.New(os.Stdout, "p§ ", 0)
+	lg.Printf("x %d", 1)
+	lg.Println("y")`,
+		}, min: 3},
 	{kind: "globals", weight: 4, imports: []string{"fmt"},
 		decls: `var g§ = fmt.Sprintf("g%d", §)
 
